@@ -83,12 +83,10 @@ impl FatLine {
         // Ordering on the convex hull depends only on if cp1 and cp2 are on the same side or not
         if on_same_side {
             // cp1 or cp2 might be inside the hull
-            let dist_ratio = dx1/dx2;
-
-            if dist_ratio >= 2.0 {
+            if dx1.abs() >= 2.0*dx2.abs() {
                 // cp2 is in the hull (between the line cp1->end and start->end)
                 vec![start, cp1, end]
-            } else if dist_ratio <= 0.5 {
+            } else if 2.0*dx1.abs() <= dx2.abs() {
                 // cp1 is in the hull (between the line cp2->end and start->end)
                 vec![start, cp2, end]
             } else {
